@@ -19,7 +19,7 @@ read from the heap; HOW the result is stored comes from the table.  With an unsa
 `Array.Add`, `resliceThenAppend` for `Hash.Delete`, `inPlace` for a sort on the receiver's slice) the model writes
 into cells that other live slices cover — it reproduces the corruption the real code shows on tag `verif-base`.
 -/
-namespace Pcore.Coll
+namespace Pcore.Heap
 
 /-- how the expression producing a result's backing slice is built (emitted by `/verif/extract`, family sliceidioms) -/
 inductive Idiom
@@ -187,4 +187,4 @@ def pureResult (ops : List Op) (i : Nat) : Option (List Val) :=
   | some (.val _ xs) => some xs
   | _ => none
 
-end Pcore.Coll
+end Pcore.Heap
